@@ -1,16 +1,19 @@
 #!/bin/sh
-# usage: seedtest.sh <check id> <patch file> [tier]   -- applies a seeded change to /repo, runs the check, reverts.
+# usage: seedtest.sh <check id> <patch file> [tier]
+# Applies a seeded change to a scratch worktree of /repo (never to /repo itself), runs the check against
+# it through VERIF_REPO, removes the worktree. Evidence of the run goes to a scratch VERIF_ROOT copy? No:
+# the evidence file in /verif is restored afterwards.
 id=$1; patch=$2; tier=${3:-quick}
-cd /repo || exit 3
-if [ -n "$(git status --porcelain --untracked-files=no)" ]; then echo "repo not clean"; exit 3; fi
-git apply "$patch" || { echo "PATCH DOES NOT APPLY"; exit 3; }
-cd /verif && ./vc check "$id" --tier "$tier" > /var/tmp/seedtest.$$.log 2>&1; rc=$?
-git -C /repo checkout -- . 
+wt=/tmp/wt/seedtest-$$
+git -C /repo worktree add -q --detach $wt HEAD || exit 3
+git -C $wt apply "$patch" || { echo "PATCH DOES NOT APPLY"; git -C /repo worktree remove --force $wt; exit 3; }
+cp /verif/evidence/$id.json /var/tmp/seedtest.$$.ev 2>/dev/null
+cd /verif && VERIF_REPO=$wt ./vc check "$id" --tier "$tier" > /var/tmp/seedtest.$$.log 2>&1; rc=$?
+git -C /repo worktree remove --force $wt; git -C /repo worktree prune
 grep -c '^VIOLATION' /var/tmp/seedtest.$$.log | sed 's/^/violation lines: /'
 grep '^  key=' /var/tmp/seedtest.$$.log | sort | uniq -c | head -8
 tail -1 /var/tmp/seedtest.$$.log
 rm -f /var/tmp/seedtest.$$.log
+[ -f /var/tmp/seedtest.$$.ev ] && mv /var/tmp/seedtest.$$.ev /verif/evidence/$id.json
 echo "rc=$rc"
-# restore the evidence of the unchanged tree
-git -C /verif checkout -- evidence 2>/dev/null
 exit $rc
